@@ -64,15 +64,21 @@ CHECKS = {
     "C03": e1("finite-trace form of the leads-to (every script ends with a drain: all tasks released, all timers expired) plus the "
               "no-idle-head invariant at every quiescent snapshot; liveness under fairness on the model.", "DESIGN.md 6 C03"),
     "C04": e1("cancel at every quiescent point of every scripted history; ack / stop-delivery / no-new-task / reported-canceled / result "
-              "clauses evaluated by TLC on every trace.", "DESIGN.md 6 C04"),
+              "clauses evaluated by TLC on every trace; TaskExec.tla: every cancel case of a two-line task (allow_failure or not, line 1 / 2, "
+              "dependent task) run with real processes by the real task runner and validated by TLC.", "DESIGN.md 6 C04, 0.2"),
     "C05": e1("the decision table is evaluated by TLC at every schedule step against the pre-state observed through the API; "
-              "reject-leaves-no-trace and the queue bound at every quiescent snapshot.", "DESIGN.md 6 C05"),
-    "C06": e1("FIFO clause evaluated at every step in which a waiting job becomes started.", "DESIGN.md 6 C06"),
+              "reject-leaves-no-trace and the queue bound at every quiescent snapshot; the queue bound also in every snapshot of truly "
+              "concurrent clients.", "DESIGN.md 6 C05, 0.2"),
+    "C06": e1("FIFO clause evaluated at every step in which a waiting job becomes started (deep wait lists with cancels of any job; bursts "
+              "whose start timers expire at the same instant); start order = order of the accepting critical sections under truly "
+              "concurrent clients.", "DESIGN.md 6 C06, 0.2"),
     "C07": e1("exact under virtual time: start - accept >= delay for every started job; debounce clauses (newest wins / newest runs).", "DESIGN.md 6 C07"),
-    "C08": e1("fail-fast / continue / verdict-sound / no-running-after-completed / no-run-after-failed-dependency on model and traces.", "DESIGN.md 6 C08"),
+    "C08": e1("fail-fast / continue / verdict-sound / no-running-after-completed / no-run-after-failed-dependency on model and traces; "
+              "TaskExec.tla failure cases on the real task runner; single-field reload of the fail-fast flag on the real binary; verdict of "
+              "failed jobs under truly concurrent clients.", "DESIGN.md 6 C08, 0.2"),
     "C10": e1("restart steps (a new runner on a copy of the store as it is on disk) at arbitrary quiescent points of TLC-generated histories; "
               "all-terminal / no-ghosts / same-set / finished-jobs-faithful (vocabulary fields and the /job/detail JSON byte-equal) evaluated "
-              "by TLC on the Restart line; payloads of several JSON types are sampled, not enumerated.", "DESIGN.md 6 C10"),
+              "by TLC on the Restart line, no-ghost-capacity at the requests after it; payloads of several JSON types are sampled, not enumerated.", "DESIGN.md 6 C10"),
     "C11": e1("graceful and forced shutdown begun at arbitrary quiescent points, with schedule/cancel/finish/poll steps interleaved; "
               "all-terminal, store-matches, reject-after, graceful-runs-out, forced-cancels at the return; persist-within-interval exact "
               "under virtual time.", "DESIGN.md 6 C11"),
@@ -81,7 +87,8 @@ CHECKS = {
     "C15": e1("schedulable-iff-accepted is confronted with a real request at every schedule step; running flag, listing, order and "
               "timestamps checked at every quiescent snapshot taken through the HTTP handler and IterateJobs.", "DESIGN.md 6 C15"),
     "C16": e1("commands / env / task set seen by the injected runner must be those of the version at acceptance; reload steps are inert; "
-              "all jobs of defined pipelines terminal at drain.", "DESIGN.md 6 C16"),
+              "all jobs of defined pipelines terminal at drain; the start delay a job was accepted with is honoured after a reload; "
+              "single-field reloads on the real binary; job-vs-installed-definitions by critical-section order under concurrent reloads.", "DESIGN.md 6 C16, 0.2"),
 }
 
 DOMAIN_NOTE = ("Trusted: TLC, the Go probe that executes the cases and records the rows. The case space is the finite one written in the "
